@@ -8,10 +8,19 @@ Open Scope Z_scope.
 (* ------------------------------------------------------------------ candidates *)
 
 (* what the regenerated process_dyn_params does: every parameter is bound, nothing else changes *)
+Lemma fold_register : forall (ds acc : list (nat * list nat)),
+  fold_left (fun m d => (fst d, snd d) :: m) ds acc = rev ds ++ acc.
+Proof.
+  induction ds as [|[k v] ds IH]; intros acc; cbn; [reflexivity|].
+  rewrite IH. rewrite <- app_assoc. reflexivity.
+Qed.
+
+(* (robust against the equivalent forms the translator accepts: early return on an empty list,
+   dict.update with a comprehension) *)
 Lemma gen_process_rev : forall ds acc, gen_process_dyn_params ds acc = rev ds ++ acc.
 Proof.
-  unfold gen_process_dyn_params. induction ds as [|[k v] ds IH]; intros acc; cbn; [reflexivity|].
-  rewrite IH. rewrite <- app_assoc. reflexivity.
+  intros ds acc. unfold gen_process_dyn_params.
+  destruct ds as [|d ds]; cbv beta iota zeta; rewrite ?fold_register; reflexivity.
 Qed.
 
 Lemma process_rev : forall ds acc, process_dyn_params ds acc = rev (map dpair ds) ++ acc.
